@@ -27,6 +27,7 @@ class DirModel:
         self.snapshot: typing.Optional[typing.Dict[str, bytes]] = None
         self.age = 0          # seconds the entry has been aged by the harness
         self.written_by = None
+        self.renamed = False  # the directory was renamed after the entry was written (the entry holds the old selectors)
 
 
 class World:
@@ -110,6 +111,22 @@ class World:
                 fp.write(b"x" * 2000)
         self.trace.append("%s in /%s" % (kind, d.decode()))
 
+    def op_rename_dir(self) -> None:
+        """The directory itself is renamed (its cache file travels with it).  The entry still says what it said, under
+        the old selectors; what the model keeps checking is its age: a hit does not refresh it, an expired one is not used."""
+        if len(self.dirs) < 2:
+            return
+        d = self.dirs[-1]
+        self.counter += 1
+        new = (d.rsplit(b"/", 1)[0] + b"/" if b"/" in d else b"") + b"ren%d" % self.counter
+        os.rename(os.path.join(os.fsencode(self.root), d), os.path.join(os.fsencode(self.root), new))
+        self.dirs[-1] = new
+        self.model[new] = self.model.pop(d)
+        if self.model[new].snapshot is not None:
+            self.model[new].renamed = True
+        self.trace.append("rename directory /%s -> /%s" % (d.decode(), new.decode()))
+        self.chk.count("directory_renames")
+
     def op_age(self) -> None:
         """Advance the clock by delta: every timestamp under the root moves back by delta
         (the cache files' and the directories' alike), which is what the passage of time
@@ -157,7 +174,7 @@ class World:
             return False
         if after is not None and (before is None or after.st_mtime_ns != before.st_mtime_ns) and self.lifetime > 0:
             # the implementation chose to (re)write the cache on a HEAD: follow it in the model
-            m.snapshot, m.age, m.written_by = self.render_current(d), 0, "httphead"
+            m.snapshot, m.age, m.written_by, m.renamed = self.render_current(d), 0, "httphead", False
         chk.count("head_requests")
         return True
 
@@ -240,7 +257,7 @@ class World:
             chk.witness("C10/request-failed", sample)
             return False
         if expect_hit:
-            if got != m.snapshot[view]:
+            if not m.renamed and got != m.snapshot[view]:
                 fresh = self.render_current(d)
                 which = "serves-current-directory" if got == fresh[view] else "differs-from-recorded-listing"
                 chk.witness("C10/hit-%s:%s" % (which, "same-protocol" if m.written_by == view else "cross-protocol"),
@@ -261,7 +278,7 @@ class World:
             if self.lifetime > 0:
                 if not os.path.exists(cp):
                     chk.note_inconclusive("no cache file after a miss")
-                m.snapshot, m.age, m.written_by = current, 0, view
+                m.snapshot, m.age, m.written_by, m.renamed = current, 0, view, False
             chk.count("misses_verified")
             chk.case(("miss", view, m.age // 100, self.lifetime), sample if chk.evaluations % 97 == 0 else None)
         return True
@@ -356,8 +373,10 @@ def run_history(chk: Check, sc: Scratch, idx: int) -> None:
             elif r < 0.5:
                 if not w.op_request():
                     return
-            elif r < 0.8:
+            elif r < 0.76:
                 w.op_mutate()
+            elif r < 0.8:
+                w.op_rename_dir()
             else:
                 w.op_age()
         chk.count("histories_completed")
